@@ -335,7 +335,11 @@ def _after(f, inst):
 def rule_e_inflight(chk, prog):
     """in-flight copies of fragment blocks: taken before the block is handed to a worker (which compresses it in
     place), under the same configuration test as the comparator, and freed only where the block hits the disk"""
-    f = prog.need_fn("enqueue_block")
+    from ..anchors import submitter
+    cands = submitter(prog)
+    if not cands:
+        raise AnalysisBroken("no function of the block processor submits blocks to the thread pool")
+    f = cands[0]
     chk.analysed(f)
     subs = [c for c in f.calls() if slot_call(c) == ("struct.thread_pool_t", "submit")]
     copies = [c for c in f.calls("memcpy") if any(fld(x.ops[0]) == "data" or True for x in [c]) and
@@ -448,9 +452,10 @@ def rule_h_equals_reports(chk, prog):
     back fails, the failure is recorded in the processor's error field before 'not equal' is answered -- otherwise an
     unreadable candidate is silently taken for a different one and the error never stops the run"""
     from ..errflow import ErrModel, failure_edges
-    fs = [g for g in prog.functions() if g.name == "chunk_info_equals" and not g.decl]
+    from ..anchors import fragment_equals
+    fs = fragment_equals(prog)
     if not fs:
-        chk.broke("chunk_info_equals not found")
+        chk.broke("equality callback of the fragment hash table not found")
         return
     f = fs[0].build()
     chk.analysed(f)
